@@ -551,7 +551,7 @@ def main():
     # dof and maps to its number; slot cover (used by C16); frame
     from vlib import vrun as VR
 
-    for blk in ("_p1_final_block", "_rwg_final_block"):
+    for blk in ("_p1_final_block", "_rwg_selection_block", "_rwg_final_block"):
         VR.add_block(run, "contracts.dofmap_blocks", blk)
     # invert_local2global: global2local lists (e, i) under d  <=>  local2global[e, i] == d with a non-zero multiplier (V-engine, all sizes; the list of lists is
     # abstracted to a relation: order and multiplicity of the entries are not modelled)
